@@ -450,6 +450,97 @@ func runC16(c *Check) {
 		}
 	}
 	c.MinInstances("C16-R4", 18)
+
+	// ---- R5: cancellation keeps its class across the wire. context.Canceled is a standard
+	// library value whose identity cannot survive the transport; wherever the node classifies a
+	// DA error against it, the client method that produced the error must hand back that very
+	// value whenever the error that crossed the wire says so.
+	c.Doc("C16-R5", "FS+VP: the client restores context.Canceled from the wire error for every DA method whose error the node classifies as cancellation.")
+	cancelMethods := map[string]string{}
+	for _, fn := range rp.Funcs {
+		pk := fnPkg(fn)
+		if pk == nil || strings.HasSuffix(pk.Pkg.Path(), "/core/da") {
+			continue
+		}
+		for _, b := range fn.Blocks {
+			for _, in := range b.Instrs {
+				call, ok := in.(*ssa.Call)
+				if !ok || commonName(call.Common()) != "errors.Is" {
+					continue
+				}
+				t := TermOf(call, &Ctx{Fn: fn})
+				if len(t.Args) != 2 || t.Args[1].Op != "global" || t.Args[1].Name != "context.Canceled" {
+					continue
+				}
+				rp.DeepContains(t.Args[0], func(x *Term) bool {
+					if x.Op == "invoke" && strings.Contains(x.Name, "core/da.DA).") {
+						cancelMethods[x.Name[strings.LastIndex(x.Name, ".")+1:]] = fnShort(fn) + " @" + rp.InstrPos(call)
+					}
+					return false
+				}, 2)
+			}
+		}
+	}
+	for _, m := range sortedKeys(cancelMethods) {
+		fn := api(m)
+		inst := "client." + m + " ⟂ restores-context.Canceled-from-wire-error"
+		if fn == nil {
+			c.Unk("C16-R5", inst, "", "", "anchor lost: client method "+m)
+			continue
+		}
+		g := BuildECFG(dp, fn, ExpandOpts{MaxDepth: 1})
+		c.NoteGraph(g)
+		rpc := g.Select(func(n *Node) bool {
+			cc := CallCommonOf(n)
+			if cc == nil || cc.IsInvoke() || cc.StaticCallee() != nil {
+				return false
+			}
+			t := TermOf(cc.Value, n.Ctx)
+			return t.Op == "field" && t.Name == m
+		})
+		if len(rpc) != 1 {
+			c.Unk("C16-R5", inst, fnName(fn), "", fmt.Sprintf("anchor lost: %d RPC calls", len(rpc)))
+			continue
+		}
+		wireErr := TermOf(rpc[0].In.(ssa.Value), rpc[0].Ctx)
+		restoring := g.Select(func(n *Node) bool {
+			ret, ok := n.In.(*ssa.Return)
+			if !ok || len(ret.Results) == 0 {
+				return false
+			}
+			t := TermOf(ret.Results[len(ret.Results)-1], n.Ctx)
+			return t.Op == "global" && t.Name == "context.Canceled"
+		})
+		if len(restoring) == 0 {
+			c.Bad("C16-R5", inst, fnName(fn), dp.Pos(fn.Pos()), "the node classifies the error of DA."+m+" against context.Canceled ("+cancelMethods[m]+") but the client never returns that value: a cancellation reported by the DA side becomes a generic error after crossing the wire", nil)
+			continue
+		}
+		// the condition of the restoring return: message containment on the error of the RPC
+		byWire := false
+		var conds []string
+		for _, rn := range restoring {
+			rn := rn
+			for _, f := range dp.closeFacts(FactSet(g.NecessaryEdges(func(n *Node) bool { return n == rn })), 1) {
+				t, pol := normFact(f.Cond, f.Pol)
+				if !pol || !t.IsCall("strings.Contains") || len(t.Args) != 2 {
+					continue
+				}
+				conds = append(conds, trunc(t.String(), 100))
+				subj, pat := t.Args[0], t.Args[1]
+				if subj.Op == "invoke" && subj.Name == "(error).Error" && subj.Args[0].Op == "extract" && subj.Args[0].Args[0].V == wireErr.V {
+					if (pat.Op == "invoke" && pat.Name == "(error).Error" && pat.Args[0].Op == "global" && pat.Args[0].Name == "context.Canceled") || (pat.Op == "const" && pat.Name == "\"context canceled\"") {
+						byWire = true
+					}
+				}
+			}
+		}
+		if byWire {
+			c.OK("C16-R5", inst, fnName(fn), dp.InstrPos(restoring[0].In), "context.Canceled is returned whenever the error of the RPC carries its message", true)
+		} else {
+			c.Bad("C16-R5", inst, fnName(fn), dp.InstrPos(restoring[0].In), "context.Canceled is returned without testing the message of the error that crossed the wire (conditions: "+strings.Join(conds, "; ")+"): a cancellation reported by the DA side is classified as a generic error through the proxy and as StatusContextCanceled directly", nil)
+		}
+	}
+	c.MinInstances("C16-R5", 1)
 	_ = sort.Strings
 }
 
